@@ -262,6 +262,7 @@ func vC12Run(peers []string, steps int) {
 	vCover("C12 run complete")
 }
 
-func H_C12_two()   { vC12Run([]string{"a", "b"}, 5) }
-func H_C12_three() { vC12Run([]string{"a", "b", "c"}, 6) }
-func H_C12_deep()  { vC12Run([]string{"a", "b", "c"}, 8) }
+func H_C12_two()    { vC12Run([]string{"a", "b"}, 5) }
+func H_C12_three5() { vC12Run([]string{"a", "b", "c"}, 5) }
+func H_C12_three()  { vC12Run([]string{"a", "b", "c"}, 6) }
+func H_C12_deep()   { vC12Run([]string{"a", "b", "c"}, 8) }
